@@ -126,3 +126,31 @@ func init() {
 		return concreteHasPrefix(m, g, c)
 	})
 }
+
+func init() {
+	// package main (agent.go) — the command-line interval gate (C20)
+	regHavoc("time.ParseDuration")
+	regV("github.com/ethereum/go-ethereum/p2p/discv5.PubkeyID", func(m *Machine, g *Goroutine, a []Value) Value {
+		sp := m.ld.ssaPkgs["github.com/ethereum/go-ethereum/p2p/discv5"]
+		return m.zero(sp.Type("NodeID").Type())
+	})
+	regV("(github.com/ethereum/go-ethereum/p2p/discv5.NodeID).String", func(m *Machine, g *Goroutine, a []Value) Value {
+		return StrVal{s: m.cfgString("nodeid")}
+	})
+	reg(repoMod+".findRPC", func(m *Machine, g *Goroutine, c *callCtx) (Value, stepStatus) {
+		fn := m.ld.ssaPkgs[repoMod].Func("verifRootNode")
+		if fn == nil {
+			panic(abortf("findRPC needs a harness function verifRootNode() ethnode.EthNode in package main"))
+		}
+		m.callClosure(g, FuncVal{fn: fn}, nil, func(v Value) { c.deliver(TupleVal{v, IfaceVal{}}) })
+		return nil, stStay
+	})
+}
+
+// cfgString: engine-side constants shared with verifapi/ids.go.
+func (m *Machine) cfgString(k string) string {
+	if k == "nodeid" {
+		return "bf0de96f25b57201cf1d408d05add7722175c372ce56ec0b67f710059cc53d9ea0343446f7ec625c796a548c82bcf08308304c9fbf097bf92257e06fc7c60915"
+	}
+	return ""
+}
